@@ -177,7 +177,7 @@ func ftokenize(s string) ([]string, error) {
 			toks = append(toks, s[i:j])
 			i = j
 		default:
-			for _, op := range []string{"&&", "||", "==", "!=", "<=", ">=", "<", ">", "!", "(", ")", "+", "-", "%"} {
+			for _, op := range []string{"&&", "||", "==", "!=", "^=", "<=", ">=", "<", ">", "!", "(", ")", "+", "-", "%"} {
 				if strings.HasPrefix(s[i:], op) {
 					toks = append(toks, op)
 					i += len(op)
@@ -198,7 +198,7 @@ func signPosition(toks []string) bool {
 		return true
 	}
 	switch toks[len(toks)-1] {
-	case "&&", "||", "==", "!=", "<=", ">=", "<", ">", "!", "(", "+", "-", "%":
+	case "&&", "||", "==", "!=", "^=", "<=", ">=", "<", ">", "!", "(", "+", "-", "%":
 		return true
 	}
 	return false
@@ -294,7 +294,7 @@ func (p *fparser) cmp() (*fexpr, error) {
 		return nil, err
 	}
 	switch op := p.peek(); op {
-	case "==", "!=", "<", "<=", ">", ">=":
+	case "==", "!=", "^=", "<", "<=", ">", ">=":
 		p.pos++
 		b, err := p.sum()
 		if err != nil {
@@ -429,6 +429,8 @@ func (in *Interp) evalF(e *fexpr) fval {
 				r = a.s == b.s
 			case "!=":
 				r = a.s != b.s
+			case "^=":
+				r = strings.HasPrefix(a.s, b.s)
 			default:
 				return fval{undef: true}
 			}
